@@ -40,14 +40,18 @@ OTHER than the spool is, in the final world, bound to a file whose DURABLE conte
 received or as rewritten by label / add-header.  (A rule set without a move - label / add-header /
 exec / reject only - rewrites or pipes the spool copy, which the cleanup then removes: status 0 or 1,
 nothing stored; so does a discard, and `-d`.  These are the cases the hypotheses exclude.)  Hypotheses: `-` was given, not `-n`, exactly one `stdin` block (any number
-of `maildir` blocks), descriptor 0 holds `input`, `mkdtemp` returns a fresh directory. -/
+of `maildir` blocks), descriptor 0 holds `input`, `mkdtemp` returns a fresh directory; and the rule tree of the
+`stdin` block asks the operating system nothing (`Proofs.asksFree`: no `command`, `isdirectory`, file-time `date`
+condition) - `Delivered` speaks about the verdict of the pure evaluator, which is the run's verdict only then
+(for rule trees with such conditions the statements that do not mention the verdict hold: `C04_stdin_spool_removed`,
+`C04_stdin_status`, `C04_stdin_spool_complete`). -/
 theorem C02_stdin_exit0 (env : PEnv) (orc : EvalOracles) (conf : List ConfBlock) (files : Files) (input : Bytes) (expr : Expr)
     (w : World) (plan : Plan) (hm : env.stdinMode = true) (hs : env.syntaxOnly = false)
     (hc : Proofs.World.stdinExprs conf = [expr]) (hin : Proofs.World.StdinIs w input)
-    (hfresh : Proofs.World.SpoolFresh env w) :
+    (hfresh : Proofs.World.SpoolFresh env w) (hfree : Proofs.asksFree expr = true) :
     let r := runPlan plan (mainP env orc true conf files input) w 0 []
     r.1.1 = 0 → Proofs.Delivered env orc expr input r.2.1 :=
-  Proofs.stdin_exit0 env orc conf files input expr w plan hm hs hc hin hfresh
+  Proofs.stdin_exit0 env orc conf files input expr w plan hm hs hc hin hfresh hfree
 
 /-! Non-vacuity: the hypotheses hold for a 10-byte message, TMPDIR `/tmp` and the configuration
 `stdin { match all move "/m/inbox" }` (Proofs/WorldStdinExample); for the name the spool file gets
@@ -61,7 +65,7 @@ example :
     r.1.1 = 0 → Proofs.Delivered Proofs.StdinExample.env0 Proofs.StdinExample.orc0 Proofs.StdinExample.expr0
       Proofs.StdinExample.input0 r.2.1 :=
   C02_stdin_exit0 _ _ _ _ _ _ _ _ rfl rfl Proofs.StdinExample.ex_stdinExprs Proofs.StdinExample.ex_stdinIs
-    Proofs.StdinExample.ex_fresh
+    Proofs.StdinExample.ex_fresh (by decide)
 
 example : Proofs.StdinExample.deliversB (Proofs.World.spoolPath Proofs.StdinExample.env0)
     (Proofs.World.stdinVerdict Proofs.StdinExample.env0 Proofs.StdinExample.orc0 Proofs.StdinExample.expr0
@@ -78,7 +82,8 @@ A process killed before call k of `mainP` leaves the world after call k-1; a pow
 durable contents.  Both are covered by a statement about the world after EVERY call. -/
 
 /-- One message: after every call of `processMessage`, under every fault plan, some entry is bound to
-a file whose content ON STABLE STORAGE is the message or its complete rewrite. -/
+a file whose content ON STABLE STORAGE is the message or its complete rewrite (for some answers `as` of the operating
+system to the questions of evaluation: `command`, `isdirectory` and file-time `date` conditions are part of the run). -/
 theorem C02_message_power_failure (env : PEnv) (orc : EvalOracles) (expr : Expr) (md : Maildir) (name : Bytes) (st : MainSt)
     (w : World) (plan : Plan) (d : Handle) (content : Bytes) (fid : Nat)
     (hd : md.dirH = some d) (hp : w.dirPath d = some md.path)
@@ -87,8 +92,9 @@ theorem C02_message_power_failure (env : PEnv) (orc : EvalOracles) (expr : Expr)
     (hl : w.lookup md.path name = some fid) (hlt : fid < w.nextFid) (hf : w.file fid = some ⟨content, content⟩)
     (hnd : Proofs.WholeNoDiscard env orc expr) :
     ∀ w' ∈ (runPlan plan (processMessage env orc expr md name st) w 0 []).2.2,
-      Proofs.IntactDurable w' [content, Proofs.wholeRewrite env orc expr md.path name content] := fun w' hw' =>
-  (Proofs.whole_message_no_loss env orc expr md name st w plan hd hp hwf hfc hl hlt hf hnd w' hw').2.1
+      ∃ as, Proofs.IntactDurable w' [content, Proofs.wholeRewrite env orc expr md.path name content as] := fun w' hw' => by
+  obtain ⟨⟨as, _, h⟩, _⟩ := Proofs.whole_message_no_loss env orc expr md name st w plan hd hp hwf hfc hl hlt hf hnd w' hw'
+  exact ⟨as, h⟩
 
 /-- One maildir: after every call of `walk`, under every fault plan, every registered message has an
 entry bound to a file whose visible content AND whose content on stable storage are complete versions of it. -/
